@@ -101,6 +101,7 @@ def unit_resume(cx, fe, info, ex, G):
                 raise OutsideSubset('resume block not found')
             saved = (ex.cur_fn, ex.loop_specs, ex.loop_ord)
             ex.cur_fn = fs
+            ex.alias = ex.fe.local_aliases(fs.qualname)
             allloops = loops_of(fs.node)
             ex.loop_ord = {id(n): k for k, n in enumerate(allloops)}
             inblock = [n for n in allloops if any(
@@ -333,23 +334,90 @@ def unit_protocol(cx, fe, info):
     n_branch = 0
     for br in expl.orelse + [x for n in expl.orelse if isinstance(n, ast.If)
                              for x in n.orelse]:
-        if isinstance(br, ast.If) and 'self.add_samples(shell' in \
-                ast.unparse(br.body):
-            n_branch += 1
-            checks.append(('sampling_batch_{}_is_followed_by_an_update_of_'
-                           'the_same_shell'.format(n_branch),
-                           followed(br.body, 'self.add_samples(shell',
-                                    'self.write_shell_update(self.filepath, '
-                                    'shell)')))
+        if not isinstance(br, ast.If):
+            continue
+        # the shell handed to add_samples in this branch (whatever the local
+        # is called) must be the shell handed to write_shell_update
+        arg = None
+        for n in ast.walk(ast.Module(body=br.body, type_ignores=[])):
+            if isinstance(n, ast.Call) and ast.unparse(n.func) == \
+                    'self.add_samples' and n.args:
+                arg = ast.unparse(n.args[0])
+        if arg is None or arg == '-1':
+            continue
+        n_branch += 1
+        checks.append(('sampling_batch_{}_is_followed_by_an_update_of_'
+                       'the_same_shell'.format(n_branch),
+                       followed(br.body, 'self.add_samples(' + arg,
+                                'self.write_shell_update(self.filepath, ' +
+                                arg + ')')))
     checks.append(('both_sampling_branches_found', n_branch == 2))
-    # no local of run() carries state across iterations except `success`
-    assigned = set()
-    for n in ast.walk(loop):
-        if isinstance(n, ast.Assign):
-            for t in n.targets:
+    # no local of run() carries state across iterations except the loop guard
+    # `success`: every other local assigned in the loop is assigned before it
+    # is read within the same iteration
+    guard_names = {n.id for n in ast.walk(loop.test)
+                   if isinstance(n, ast.Name)}
+    carried = []
+    first = {}
+
+    def names(node, ctx):
+        return [n.id for n in ast.walk(node) if isinstance(n, ast.Name) and
+                isinstance(n.ctx, ctx)]
+
+    def visit(stmts):
+        # evaluation order: the loads of a statement happen before its stores
+        for st_ in stmts:
+            if isinstance(st_, (ast.If, ast.While)):
+                for nm in names(st_.test, ast.Load):
+                    first.setdefault(nm, 'Load')
+                visit(st_.body)
+                visit(st_.orelse)
+            elif isinstance(st_, ast.For):
+                for nm in names(st_.iter, ast.Load):
+                    first.setdefault(nm, 'Load')
+                for nm in names(st_.target, ast.Store):
+                    first.setdefault(nm, 'Store')
+                visit(st_.body)
+                visit(st_.orelse)
+            elif isinstance(st_, ast.With):
+                for it in st_.items:
+                    for nm in names(it.context_expr, ast.Load):
+                        first.setdefault(nm, 'Load')
+                    if it.optional_vars is not None:
+                        for nm in names(it.optional_vars, ast.Store):
+                            first.setdefault(nm, 'Store')
+                visit(st_.body)
+            elif isinstance(st_, ast.Try):
+                visit(st_.body)
+                for h in st_.handlers:
+                    visit(h.body)
+                visit(st_.orelse)
+                visit(st_.finalbody)
+            else:
+                if isinstance(st_, ast.AugAssign):
+                    for nm in names(st_.target, ast.Store):
+                        first.setdefault(nm, 'Load')   # x += 1 reads x first
+                for nm in names(st_, ast.Load):
+                    first.setdefault(nm, 'Load')
+                for nm in names(st_, ast.Store):
+                    first.setdefault(nm, 'Store')
+    visit(loop.body)
+    stored = {n.id for n in ast.walk(ast.Module(body=loop.body,
+                                                 type_ignores=[]))
+              if isinstance(n, ast.Name) and isinstance(n.ctx, ast.Store)}
+    comp_vars = set()
+    for n in ast.walk(ast.Module(body=loop.body, type_ignores=[])):
+        if isinstance(n, ast.comprehension):
+            for t in ast.walk(n.target):
                 if isinstance(t, ast.Name):
-                    assigned.add(t.id)
-    checks.append(('no_run_state_in_locals', assigned <= {'success', 'shell'}))
+                    comp_vars.add(t.id)      # scoped to the comprehension
+    for nm in sorted(stored - guard_names - comp_vars):
+        # `x = f(x)` reads before it stores although the Store node comes
+        # first in the source: compare with the first Load on the same line
+        if first.get(nm) != 'Store':
+            carried.append(nm)
+    checks.append(('no_run_state_in_locals', not carried))
+    detail_carried = carried
     for nm, ok in checks:
         cx.oblige(st, nm, z3.BoolVal(bool(ok)), kind='effect')
     cx.prefix = ''
